@@ -296,7 +296,7 @@ func GenRule(ch *core.Chooser, k int, hosts []string, prev []string) string {
 		return p + "$badfilter"
 	case KRegex:
 		lbl := strings.SplitN(h, ".", 2)[0]
-		switch ch.Intn("rule.regex", 7) {
+		switch ch.Intn("rule.regex", 8) {
 		case 0:
 			return "/" + lbl + "[a-z0-9]*\\./"
 		case 1:
@@ -306,6 +306,10 @@ func GenRule(ch *core.Chooser, k int, hosts []string, prev []string) string {
 			return "/\\/ads\\d*\\.js/"
 		case 4:
 			return "/\\/ads\\D*\\.js/"
+		case 6:
+			// a '?' keeps an expression out of the shortcuts table: these
+			// are scanned sequentially
+			return []string{"/\\/ads?\\.js/", "/banner\\/?[0-9]+x[0-9]+/", "@@/track(er)?=1/", "/\\/ads?\\.js/$script,important"}[ch.Intn("rule.regexq", 4)]
 		case 5:
 			// the same expression as case 3, case-sensitive
 			return "/\\/ads\\d*\\.js/$match-case" + []string{"", ",script", ",image"}[ch.Intn("rule.regexmc", 3)]
